@@ -21,7 +21,7 @@ void eng_default_profile(void)
 {
         memset(&EP, 0, sizeof EP);
         EP.max_cmds = 16; EP.p_event_step = 20; EP.p_handler_trigger = 20; EP.p_hold = 10; EP.p_list = 7; EP.p_weird = 13;
-        EP.p_varcb_fail = 3; EP.p_backpressure = 50; EP.p_desc = 25; EP.p_garbage_line = 6; EP.p_long_line = 8; EP.max_lines = 8; EP.p_cut = 15; EP.p_lookup = 4; EP.p_toggle = 0; EP.p_nul = 3; EP.p_stray_cr = 4;
+        EP.p_varcb_fail = 3; EP.p_backpressure = 50; EP.p_desc = 25; EP.p_garbage_line = 6; EP.p_long_line = 8; EP.max_lines = 8; EP.p_cut = 15; EP.p_lookup = 4; EP.p_toggle = 5; EP.p_empty_name = 0; EP.p_nul = 3; EP.p_stray_cr = 4;
 }
 
 /* ------------------------------------------------------------ model hooks */
@@ -278,6 +278,7 @@ static const char ALPHA[] = "+ATB#&z9";
 static char *mkname(void)
 {
         char b[8]; unsigned n = 1 + rn(4);
+        if (EP.p_empty_name && chance(EP.p_empty_name)) n = 0;      /* cat_init only asks for name != NULL */
         for (unsigned i = 0; i < n; i++) b[i] = ALPHA[rn(sizeof ALPHA - 1)];
         b[n] = 0;
         return xstr(b);
@@ -357,9 +358,11 @@ static void gen_args(const struct cat_command *c)
                 for (unsigned q = 0; q < n; q++) { uint8_t ch = (uint8_t)rnd(); if (chance(70)) ch = (uint8_t)(' ' + rn(90)); if (ch == '\n') ch = 'x'; in_putc(ch); }
         }
 }
-void eng_gen_line(void)
+void eng_gen_line(void)      /* appends exactly one line, LF included */
 {
         unsigned r = rn(100);
+        if (chance(EP.p_nul) && chance(30)) in_putc(0);      /* a NUL in front of the line (between two lines) */
+        size_t line_start = INLEN;
         if (r < EP.p_garbage_line) { unsigned n = chance(92) ? rn(12) : 240 + rn(chance(50) ? 40 : 3000);      /* also lines longer than 255 / several thousand bytes: length counters must not wrap while draining */
                 for (unsigned q = 0; q < n; q++) { uint8_t ch = (uint8_t)rnd(); if (ch == '\n') ch = 'y'; in_putc(ch); } }
         else if (r < EP.p_garbage_line + 4) { unsigned n = rn(3); for (unsigned q = 0; q < n; q++) in_putc('\r'); }
@@ -382,12 +385,11 @@ void eng_gen_line(void)
                 }
         }
         if (chance(EP.p_nul)) {                   /* NUL bytes are ordinary input bytes (a UART break, padding): at the end of the line, or somewhere inside it */
-                if (chance(50) || INLEN == 0) in_putc(0);
-                else { size_t at = INLEN - 1 - rn(INLEN > 6 ? 6 : INLEN); if (INB[at] != '\n') INB[at] = 0; }
+                if (chance(50) || INLEN == line_start) in_putc(0);
+                else { size_t span = INLEN - line_start; INB[INLEN - 1 - rn(span > 6 ? 6 : span)] = 0; }
         }
         if (chance(30)) in_putc('\r');
         in_putc('\n');
-        if (chance(EP.p_nul) && chance(30)) in_putc(0);      /* between two lines */
 }
 void eng_gen_input(unsigned nlines) { in_reset(); for (unsigned i = 0; i < nlines; i++) eng_gen_line(); }
 void eng_random_schedules(void)
